@@ -19,6 +19,15 @@ CHECKS = {
             'three-valued predicate, rejections must be ValueError/TypeError and leave the value untouched, accepted values read back by identity.',
             'bounded-exhaustive enumeration (type x configuration x value x route) against an independent acceptance predicate',
             BASE_NOTE + ' Cases the documentation leaves open are EITHER (counted in the evidence, not judged).'),
+    'C02': ('model_checking', 'DESIGN.md §3 C02',
+            'BFS over histories of successful operations (plain sets, links to a Parameter / bind / rx / rx root, multi-key update, source and root '
+            'updates, class-level sets on base and subclass, making a parameter constant, open batch / discard contexts); in every reached state each of '
+            '27 rejected attempts (invalid plain values incl. NaN, references whose current value is invalid, constant / read-only / name violations, '
+            'invalid Event values; instance, class, subclass and single-key update routes) is made on a fresh replay: it must raise ValueError/TypeError, '
+            'run no watcher, leave values, stored values, links and every watcher table identical, and a fixed probe must then observe exactly what it '
+            'observes in a twin world that never saw the attempt.',
+            'explicit-state BFS over operation histories of the real code with a differential (twin-world) oracle',
+            BASE_NOTE),
     'C03': ('model_checking', 'DESIGN.md §3 C03, Appendix A',
             'Every program up to the depth bound over five complete slices of watcher configurations (ordering/lifecycle, changes-only '
             'filtering over a 22-value equality domain incl. 1/True/1.0/NaN/equal containers/dates/sets, queued and non-queued cascades, '
